@@ -29,11 +29,25 @@ class StringValidator:
         validation_issues = []
         number_open_parentheses = hed_string.count('(')
         number_closed_parentheses = hed_string.count(')')
-        if number_open_parentheses != number_closed_parentheses:
+        if number_open_parentheses != number_closed_parentheses or \
+                not StringValidator._parentheses_properly_nested(hed_string):
             validation_issues += ErrorHandler.format_error(ValidationErrors.PARENTHESES_MISMATCH,
                                                            opening_parentheses_count=number_open_parentheses,
                                                            closing_parentheses_count=number_closed_parentheses)
         return validation_issues
+
+    @staticmethod
+    def _parentheses_properly_nested(hed_string):
+        """ Return False if a closing parenthesis appears before its opening parenthesis. """
+        depth = 0
+        for character in hed_string:
+            if character == StringValidator.OPENING_GROUP_CHARACTER:
+                depth += 1
+            elif character == StringValidator.CLOSING_GROUP_CHARACTER:
+                depth -= 1
+                if depth < 0:
+                    return False
+        return True
 
     def check_delimiter_issues_in_hed_string(self, hed_string):
         """ Report missing commas or commas in value tags.
